@@ -15,6 +15,7 @@ namespace {
 
 struct NameEnt { uintptr_t base; size_t len; std::string name; };
 std::vector<NameEnt> g_names;      // sorted by base
+std::vector<std::pair<uint64_t, std::string>> g_aliases;   // integer values with a symbolic name (thread ids)
 bool g_names_sorted = true;
 
 struct Rec {
@@ -29,6 +30,8 @@ constexpr int MAXT = 16;
 std::mutex g_mu;
 std::condition_variable g_cv[MAXT];
 std::condition_variable g_cv_main;
+std::condition_variable g_cv_exit;
+int g_exit_turn = -1;           // threads leave one at a time, after the case is over (TLS destructors must not race)
 int g_cur = -1;                 // thread holding the baton (-1: main)
 bool g_active = false;
 int g_n = 0;
@@ -231,7 +234,8 @@ void spin_hint() noexcept
 
 // ---------------------------------------------------------------- registry
 
-void reg_clear() { g_names.clear(); g_names_sorted = true; }
+void reg_clear() { g_names.clear(); g_names_sorted = true; g_aliases.clear(); }
+void reg_alias( uint64_t value, std::string const& name ) { g_aliases.push_back( std::make_pair( value, name )); }
 
 void reg_name( void const* addr, size_t len, std::string const& name )
 {
@@ -322,6 +326,9 @@ RunStatus run_case( int nthreads, std::function<void( int )> const& body, SchedC
                 g_cv[next].notify_one();
             else
                 g_cv_main.notify_one();
+            // park until the main thread lets this thread exit: thread-exit destructors (boost TSS,
+            // thread_local) run unscheduled, so they must not overlap with scheduled threads or each other
+            g_cv_exit.wait( lk, [t] { return g_exit_turn == t; } );
         } );
     }
     {
@@ -331,8 +338,16 @@ RunStatus run_case( int nthreads, std::function<void( int )> const& body, SchedC
         g_cv[first].notify_one();
         g_cv_main.wait( lk, [] { return g_ndone == g_n; } );
     }
-    for ( auto& t : th ) t.join();
     g_active = false;
+    for ( int t = 0; t < nthreads; ++t ) {
+        {
+            std::unique_lock<std::mutex> lk( g_mu );
+            g_exit_turn = t;
+            g_cv_exit.notify_all();
+        }
+        th[t].join();
+    }
+    g_exit_turn = -1;
     return ST_OK;
 }
 
@@ -368,6 +383,9 @@ static std::string render_val( Rec const& r, uint64_t const v[2] )
     }
     uint64_t x = v[0];
     if ( r.size < 8 ) x &= (( uint64_t( 1 ) << ( 8 * r.size )) - 1 );
+    if ( r.size == 8 && x > 0xffff )
+        for ( auto const& a : g_aliases )
+            if ( a.first == x ) return a.second;
     std::snprintf( buf, sizeof buf, "%lu", (unsigned long) x );
     return buf;
 }
